@@ -10,8 +10,8 @@ Regions (located by anchor + brace matching, never by line number):
                                              -> lmqrRingHead / … (which member is returned)
     ring_iter()                              -> lmqrRingIterArgs (size, idx1, idx2, max) order
     add_column: the index updates            -> lmqrAddIdx   (q_idx, r_idx_start, r_idx_end)
-    add_column: η, `norm_q < η * norm_v`, min/max_eig update
-                                             -> lmqrEta / lmqrReorthCond / lmqrAddEig
+    add_column: η, `norm_q < η * norm_v`, min/max_eig update, normalisation guard `norm_q > 0`
+                                             -> lmqrEta / lmqrReorthCond / lmqrAddEig / lmqrAddNormalize
     remove_column: init of r, c; loop test; loop advance; inner `for` header; index updates;
                    min/max_eig update        -> lmqrRemoveInit / lmqrRemoveCond / lmqrRemoveAdvance /
                                                 lmqrInnerInit / lmqrInnerCond / lmqrInnerStep /
@@ -252,6 +252,24 @@ def main(out_path):
     eig = [s for s in ss if s[0] == 'expr' and targets(s[1]) in ('min_eig', 'max_eig')]
     scalar_fn('lmqrAddEig', eig, ['min_eig', 'max_eig', 'norm_q'], outputs=['min_eig', 'max_eig'],
               doc=f'{QR} :: add_column — min_eig / max_eig update')
+    # normalisation guard: `r(q_idx) = norm_q; if (norm_q > 0) q /= norm_q; else q.setZero();`
+    nrm = [s for s in ss if s[0] == 'if']
+    if len(nrm) != 1:
+        raise TranslationError('add_column: expected exactly one `if` (the normalisation guard)')
+
+    def unblock(st):
+        return st[1] if st is not None and st[0] == 'block' else [st]
+    want_then = [('expr', ('bin', '/=', ('id', 'q'), ('id', 'norm_q')))]
+    want_else = [('expr', ('call', ('mem', ('id', 'q'), 'setZero', False), [], None))]
+    if repr(unblock(nrm[0][2])) != repr(want_then) or repr(unblock(nrm[0][3])) != repr(want_else):
+        raise TranslationError('add_column: `if (…) q /= norm_q; else q.setZero();` changed shape')
+    piv = [s for s in ss if s[0] == 'expr' and s[1][0] == 'bin' and s[1][1] == '=' and
+           repr(s[1][2]) == repr(('call', ('id', 'r'), [('id', 'q_idx')], None))]
+    if repr(piv) != repr([('expr', ('bin', '=', ('call', ('id', 'r'), [('id', 'q_idx')], None), ('id', 'norm_q')))]):
+        raise TranslationError('add_column: `r(q_idx) = norm_q;` changed')
+    scalar_fn('lmqrAddNormalize', [('return', nrm[0][1])], ['norm_q'], ret='B',
+              doc=f'{QR} :: add_column — "divide q by norm_q" test (else q is set to zero)')
+    regions['add_column.normalise_shape'] = {'hash': cp.ast_hash((nrm[0][2], nrm[0][3], piv))}
 
     # ------------------------------------------------------------------ remove_column
     _, body = cp.find_region(cls, r'void\s+remove_column\s*\(\s*\)')
